@@ -327,6 +327,8 @@ def parse_info(lines):
             info['eventenum'] = t[3]
         elif t[0] == 'initial':
             info['initial'] = t[1]
+        elif t[0] == 'static':
+            info['accepted'] = t[1].split('=')[1] == 'true'
         elif t[0] == 'state':
             info['states'].append({'name': t[1], 'snake': t[2].split('=')[1]})
         elif t[0] == 'superstate':
